@@ -471,7 +471,36 @@ def collect_strings(lib):
 
 
 # ------------------------------------------------------------------ the rule
-def rule_fmttab(crate, lib, min_strings=10):
+def doc_examples(repo):
+    """[(example text, line)] — the example strings of the `datetime` and `time` format tables of the user manual
+    (book/src/basics/date-and-time.md).  `time("…")` is `datetime("<today> …")`, so its examples are prefixed with a
+    date; the `date` table goes through another function and is left out."""
+    import os
+    import re
+
+    path = os.path.join(repo, "book", "src", "basics", "date-and-time.md")
+    res = []
+    try:
+        lines = open(path, encoding="utf-8").read().splitlines()
+    except OSError:
+        return res
+    for ln, line in enumerate(lines, 1):
+        m = re.match(r"^\|\s*`(%[^`]+)`\s*\|(.*)\|\s*$", line)
+        if not m:
+            continue
+        fmt, cell = m.group(1), m.group(2)
+        has_date = "%Y" in fmt
+        has_time = "%H" in fmt or "%I" in fmt
+        if not has_time:
+            continue  # the `date` table
+        for ex in re.findall(r"`([^`]+)`", cell):
+            if not any(ch.isdigit() for ch in ex):
+                continue  # "same, but with `/` separator"
+            res.append((ex if has_date else "2024-02-10 " + ex, ln, ex))
+    return res
+
+
+def rule_fmttab(crate, lib, min_strings=10, repo=None):
     out = RuleOut("FMTTAB", "every date-time string written in the standard library is accepted by a format of datetime::parse_datetime")
     rd = Reader(crate)
     f = crate.file_of(rd.fn)
@@ -496,7 +525,15 @@ def rule_fmttab(crate, lib, min_strings=10):
     strings, skipped, renderers = collect_strings(lib)
     import os
 
+    n_doc = 0
+    if repo:
+        for (text, ln, shown) in doc_examples(repo):
+            n_doc += 1
+            strings.append((text, "@book/src/basics/date-and-time.md", ln, "documented example `%s`" % shown))
+
     def rel(mn):
+        if mn.startswith("@"):
+            return mn[1:]
         return "numbat/modules/" + mn.replace("::", "/") + ".nbt"
 
     seen = {}
@@ -516,7 +553,7 @@ def rule_fmttab(crate, lib, min_strings=10):
                 else:
                     if " " in text:
                         rest, last = text.rsplit(" ", 1)
-                        if TZNAME.match(last) and fm.accepts(rest):
+                        if TZNAME.match(last) and last.upper() not in ("AM", "PM") and fm.accepts(rest):  # AM/PM is a meridiem, no zone
                             hit = (s, fm, "time-zone name `%s` + rest" % last)
                 if hit:
                     break
@@ -532,7 +569,7 @@ def rule_fmttab(crate, lib, min_strings=10):
             out.violation(key, rel(mn), line, "%s: %r is not accepted by any format of parse_datetime (%d strptime sites, %d format strings; offset formats: %s): evaluating it can only fail with `Unrecognized datetime format`" % (origin, text, len(sites), n_fmt, sorted(fm.fmt for (s, fs) in compiled for fm in fs if s["kind"] == "Zoned")[:10]))
     for (mn, line, why) in skipped:
         out.advisory("datetime-call:%s:%d" % (mn, line), rel(mn), line, why)
-    out.analysed = {"strptime_sites": len(sites), "format_strings": n_fmt, "table_rows": rd.table_rows, "strings": len(seen), "templates_skipped": len(skipped), "renderers": len(renderers)}
+    out.analysed = {"strptime_sites": len(sites), "format_strings": n_fmt, "table_rows": rd.table_rows, "strings": len(seen), "templates_skipped": len(skipped), "renderers": len(renderers), "documented_examples": n_doc}
     out.floor("strptime_sites", len(sites), 3)
     out.floor("format_strings", n_fmt, 9)
     out.floor("table_rows", rd.table_rows, 4)
